@@ -551,7 +551,7 @@ theorem stepT_inv {s : State} {i : Nat} {t : Thread} (h : Inv s) (ht : s.threads
     have htr : s.trickStopping = true := ok.2.2.1 (by simp [hb, inStop])
     have hfree : s.restartOwner = none := by simpa [enabledT, hb] using hen
     have hH : MidH ({ s with restartOwner := some i } : State) i := hn.acquire hfree rfl rfl rfl rfl rfl rfl rfl
-    refine (hH.setPc (.spAcq (.stop s.watcher))).close (pc := .spAcq (.stop s.watcher)) ?_ ?_ rfl ?_
+    refine (hH.setPc (.spAcq (.stop s.watchers))).close (pc := .spAcq (.stop s.watchers)) ?_ ?_ rfl ?_
     · rw [pcOf_setPc]; simp [hi]
     · exact ⟨fun _ => by simp, by simp [isSleep], fun _ => by simpa using htr, by simp [pastStop]⟩
     · intro x; simp [hn.notStopping hfree] at x
@@ -567,9 +567,16 @@ theorem stepT_inv {s : State} {i : Nat} {t : Thread} (h : Inv s) (ht : s.threads
       subst e; simp [holds, htr, hp]
     · exact stopFinish_inv hn hi htr hp
   · -- stJoinW
-    next w hb =>
-    exact stopFinish_inv (h.midN i (notOwner (by simp [hb, holds]))) hi (ok.2.2.1 (by simp [hb, inStop]))
-      (ok.2.2.2 (by simp [hb, pastStop]))
+    next w rest hb =>
+    have hn := h.midN i (notOwner (by simp [hb, holds]))
+    have htr : s.trickStopping = true := ok.2.2.1 (by simp [hb, inStop])
+    have hp : s.process = none := ok.2.2.2 (by simp [hb, pastStop])
+    split
+    · refine (hn.setPc _).close ?_
+      intro pc e
+      simp only [pcOf_setPc, hi, and_self, if_true, Option.some.injEq] at e
+      subst e; simp [holds, htr, hp]
+    · exact stopFinish_inv hn hi htr hp
   · -- wWait
     next hb =>
     have hn := h.midN i (notOwner (by simp [hb, holds]))
